@@ -52,7 +52,7 @@ Refines(P, Q, out) ==
 
 (* what the outcome says about variable v: the packed encodings judged for it, as sets of spans *)
 JudgedFor(out, v) == {{out.judgs[i].spans[k] : k \in 1..Len(out.judgs[i].spans)} : i \in {j \in 1..Len(out.judgs) : out.judgs[j].var = v}}
-Equated(out, a, b) == \E i \in 1..Len(out.eqs) : {out.eqs[i][1], out.eqs[i][2]} = {a, b}
+Equated(out, a, b) == a = b \/ \E i \in 1..Len(out.eqs) : {out.eqs[i][1], out.eqs[i][2]} = {a, b}
 
 PiecesInside(P, Q, out) ==
     \A s \in P \cup Q : \A J \in JudgedFor(out, Var(s)) : \A p \in J : Off(p) >= 0 /\ End(p) <= Size(s)
